@@ -172,6 +172,9 @@ func (g *Gen) withMetaCas(c string) uint64 {
 	return g.metaCas
 }
 
+// obsKeys: the keys read back when "everything" is read back - the program's keys and the dedicated counter.
+func (g *Gen) obsKeys() []string { return append(append([]string{}, g.keys...), "cnt") }
+
 func (g *Gen) xattrVal() string {
 	switch g.r.intn(5) {
 	case 0:
@@ -622,7 +625,7 @@ func (g *Gen) expiryProgram(n int) {
 	}
 	observe := func() {
 		for _, cc := range g.colls {
-			for _, kk := range g.keys {
+			for _, kk := range g.obsKeys() {
 				g.rb(cc, kk)
 			}
 		}
@@ -924,7 +927,7 @@ func (g *Gen) viewProgram(n int, withMeta bool) {
 		case 0:
 			if g.oneOp(c, k) {
 				for _, cc := range g.colls {
-					for _, kk := range g.keys {
+					for _, kk := range g.obsKeys() {
 						g.rb(cc, kk)
 					}
 				}
@@ -974,7 +977,7 @@ func (g *Gen) viewProgram(n int, withMeta bool) {
 	}
 	for _, c := range g.colls {
 		g.emit(Line{Op: "ddocs", Pos: []string{c}})
-		for _, k := range g.keys {
+		for _, k := range g.obsKeys() {
 			g.rb(c, k)
 		}
 	}
@@ -996,7 +999,7 @@ func (g *Gen) collsProgram(n int) {
 	rbAll := func() {
 		for _, c := range all {
 			if usable[c] {
-				for _, k := range g.keys {
+				for _, k := range g.obsKeys() {
 					g.rb(c, k)
 				}
 			}
@@ -1117,7 +1120,7 @@ func (g *Gen) resumeProgram(n int) {
 		g.rb("c0", "cp:fr")
 	}
 	g.tick()
-	for _, k := range g.keys {
+	for _, k := range g.obsKeys() {
 		g.rb("c0", k)
 	}
 	start(true)
@@ -1347,7 +1350,7 @@ func (g *Gen) program(n int) {
 		purged := g.oneOp(c, k)
 		if purged {
 			for _, cc := range g.colls {
-				for _, kk := range g.keys {
+				for _, kk := range g.obsKeys() {
 					g.rb(cc, kk)
 				}
 			}
@@ -1382,7 +1385,7 @@ func (g *Gen) program(n int) {
 			g.emit(Line{Op: "now", Args: [][2]string{{"s", u(g.now)}}})
 			g.emit(Line{Op: "fire"})
 			for _, cc := range g.colls {
-				for _, kk := range g.keys {
+				for _, kk := range g.obsKeys() {
 					g.rb(cc, kk)
 				}
 				for _, id := range feeds[cc] {
@@ -1394,7 +1397,7 @@ func (g *Gen) program(n int) {
 	// final snapshots: backfill dumps from several start points
 	if g.profile == "feeds" || g.profile == "multi" {
 		for _, cc := range g.colls {
-			for _, kk := range g.keys {
+			for _, kk := range g.obsKeys() {
 				g.rb(cc, kk)
 			}
 		}
